@@ -9,16 +9,20 @@ C = {}
 # families added after the first version of a check (appended to its level text; DESIGN.md §11.3 and §11.7 give the detail)
 EXTRA = {
  "C01": " Later additions: hello-hook configurations and the remaining public options as further configuration dimensions (application-supplied cipher suites, SHA-1 signature schemes with WithInsecureHashes, an application-supplied hello random, the CertificateRequest hook): 86 values over 20 dimensions.",
- "C03": " Later additions: second attempts of refused clients, a forged-ACK peer, pinning callbacks, certificate lists, and two hand-written servers that own no credential (unsigned ECDHE_PSK key exchange; abbreviated handshake that echoes a session_id the client holds no secret for, Finished under a guessable master secret).",
+ "C03": " Later additions: second attempts of refused clients, a forged-ACK peer, pinning callbacks, certificate lists, and two hand-written servers that own no credential (unsigned ECDHE_PSK key exchange; abbreviated handshake that echoes a session_id the client holds no secret for, Finished under a guessable master secret); an early-data family (a Read pending on the honest side from the start, one application-data record sealed with the rogue's keys behind its last flight).",
  "C04": " Later additions: modes on SHA-384 and CBC suites (every PRF hash and record-protection kind at least once), lost-HelloVerifyRequest variants of every first-ClientHello alteration.",
  "C06": " Later additions: resumed receivers, sequence-number encoding boundaries, and a replay-everything adversary after handshakes that needed retransmissions (every single fault and every burst of 2-4 consecutive losses / delays over the first 8 datagrams per direction; the first finisher writes at once; afterwards every datagram of the session is replayed twice).",
  "C07": " Later additions: a public-key observer that tries to open every protected record of sessions with writes and key updates in every listed order under keys derived from empty / all-zero secrets and their traffic-update successors.",
+ "C08": " Later additions: a listener part over loopback UDP, short tls12_cid records, replay-window bounds, established victims whose transport refuses the next send once at every injection; a stalled read loop makes the continuation strict whatever the input class.",
+ "C13": " Later additions: non-ClientHello datagrams, no-backoff servers, and profiles whose server transport refuses a send with a temporary net.Error whenever an attacker datagram arrives.",
+ "C17": " Later additions: DTLS 1.3 with MTU 200, and family F: one send of an endpoint refused by its transport (temporary net.Error) at each of its first 8 / 16 sends, then a reliable network or silence.",
+ "C18": " Later additions: hello hooks on live handshakes, and an aliasing shield in the value round trip (every byte-slice field of an enumerated value lives between sentinels with spare capacity: an encoder may neither change it nor write behind it).",
  "C09": " Later additions: the retransmission family on configurations whose flights span several datagrams (MTU 200 on both sides, server MTU 400; DTLS 1.2 and 1.3), no fault and every single fault over the first 14 datagrams per direction.",
  "C11": " Later additions: ClientHello hooks (an extension dropped from the hello that carries the cookie; unconfigured suites offered first, i.e. a wire offer wider than the client's policy), multi-certificate servers, policy changes between connections that share session stores.",
  "C12": " Later additions: a wire-level sender family: complete handshakes of real endpoints (variant x MTU x connection-ID lengths incl. IDs as long as or longer than the MTU x one delivery fault), every handshake fragment on the wire — protected ones after reference decryption — judged against the sender's MTU and for exact tiling of its message.",
- "C14": " Later additions: session stores that do not copy, abandoned connections (every datagram of one direction lost, the applications give up after 0.5 s / 4 s) and the store-integrity clause (a stored secret changes only through a handshake of the same connection).",
+ "C14": " Later additions: session stores that do not copy, abandoned connections (every datagram of one direction lost, the applications give up after 0.5 s / 4 s) and the store-integrity clause (a stored secret changes only through a handshake of the same connection); a junk record delivered while the server's store is inside a slow Set call.",
  "C16": " Later additions: after-loss and after-rebind families, back-pressured and failing transports, the first finisher closing at once and mid-handshake Close crossed with every single reordering fault, and authentic alerts (close_notify, fatal, warning; sealed by the reference record layer with the peer's keys) right behind the peer's ChangeCipherSpec + Finished, in a datagram before it, and after completion.",
- "C20": " Later additions: pile-ups, ticket-loss families incl. key updates started while the lost NewSessionTicket is still unacknowledged (gaps -1..3).",
+ "C20": " Later additions: pile-ups, ticket-loss families incl. key updates started while the lost NewSessionTicket is still unacknowledged (gaps -1..3), and one datagram of a side refused by its transport in the data phase.",
 }
 def chk(pid, engine, cat, text, tech, note=NOTE_BUBBLE):
     text += EXTRA.get(pid, "")
